@@ -100,6 +100,12 @@ type verifC16Run struct {
 	removed   map[string]bool // entities removed by a local op and not re-added / re-created by drift since
 	dirty     map[string]bool // entities changed by local ops since the last clean sync (non-triviality rule only)
 
+	// intended local state: what the local ops issued so far registered (the harness issued every one of them)
+	wantSvc  map[string]*structs.NodeService
+	wantChk  map[string]*structs.HealthCheck
+	wantMeta map[string]string
+	discard  bool
+
 	// catalog content at the moment of the last remote/local diff
 	diffSvcs map[string]*structs.NodeService
 	diffChks map[string]*structs.HealthCheck
@@ -160,6 +166,9 @@ func verifC16NewRun(f verifkit.F, c *verifkit.Case, rec *verifkit.Rec, cfg verif
 	}
 	x.st.Delegate = x.cat
 	// the agent loads its node metadata before the first sync (agent.loadMetadata)
+	x.wantSvc, x.wantChk = map[string]*structs.NodeService{}, map[string]*structs.HealthCheck{}
+	x.discard = cfg.Discard
+	x.wantMeta = map[string]string{"consul-network-segment": "", "consul-version": "1.22.5"}
 	_ = x.st.LoadMetadata(map[string]string{"consul-network-segment": "", "consul-version": "1.22.5"})
 	return x
 }
@@ -212,10 +221,11 @@ func verifC16Status(s string) string {
 
 // ---- local ops, mirroring agent.go
 
-func (x *verifC16Run) guard(what string, fn func()) {
+func (x *verifC16Run) guard(what string, fn func()) (ok bool) {
 	defer func() {
 		r := recover()
 		if r == nil {
+			ok = true
 			return
 		}
 		tn := fmt.Sprintf("%T", r)
@@ -303,6 +313,14 @@ func (x *verifC16Run) addService(op verifC16Op) {
 		if err := x.st.AddServiceWithChecks(svc, checks, op.Tok, false); err != nil {
 			x.f.Fatalf("harness: AddServiceWithChecks(%s): %v", op.ID, err)
 		}
+		x.wantSvc[op.ID] = verifC16Service(op)
+		for _, hc := range checks {
+			w := *hc
+			if x.discard {
+				w.Output = ""
+			}
+			x.wantChk[string(hc.CheckID)] = &w
+		}
 		if op.Replace {
 			var ids []string
 			for cid, keep := range existing {
@@ -337,7 +355,9 @@ func (x *verifC16Run) removeService(id string) {
 	}
 	x.removed["svc:"+id] = true
 	x.dirty["svc:"+id] = true
+	delete(x.wantSvc, id)
 	for _, cid := range cids {
+		delete(x.wantChk, string(cid.ID))
 		x.removed["chk:"+string(cid.ID)] = true
 		x.dirty["chk:"+string(cid.ID)] = true
 	}
@@ -376,8 +396,14 @@ func (x *verifC16Run) addCheck(cd verifC16Chk) {
 		if err := x.st.AddCheck(hc, cd.Tok, false); err != nil {
 			x.f.Fatalf("harness: AddCheck(%s): %v", cd.ID, err)
 		}
+		w := *hc
+		if x.discard {
+			w.Output = ""
+		}
+		x.wantChk[cd.ID] = &w
 		if existing != nil {
 			x.st.UpdateCheck(cid, existing.Status, existing.Output)
+			x.wantUpdate(cd.ID, existing.Status, existing.Output)
 		}
 	})
 }
@@ -393,6 +419,22 @@ func (x *verifC16Run) removeCheck(id string) {
 	}
 	x.removed["chk:"+id] = true
 	x.dirty["chk:"+id] = true
+	delete(x.wantChk, id)
+}
+
+// wantUpdate is State.UpdateCheck on the intended state: status and output are taken over (the output locally even
+// when its write-back to the servers is deferred), the output is dropped under discard_check_output.
+func (x *verifC16Run) wantUpdate(id, status, output string) {
+	w := x.wantChk[id]
+	if w == nil {
+		return
+	}
+	if x.discard {
+		output = ""
+	}
+	c := *w
+	c.Status, c.Output = status, output
+	x.wantChk[id] = &c
 }
 
 // ---- drift, applied to the catalog the way another registrar (catalog HTTP API, a previous incarnation of the agent,
@@ -442,19 +484,30 @@ func (x *verifC16Run) drift(op verifC16Op) {
 	case "d-svc": // add or overwrite a service
 		svc := verifC16Service(op)
 		x.touchService(op.ID)
+		if w := x.wantSvc[op.ID]; w != nil && !w.EnableTagOverride && svc.EnableTagOverride && !verifC16SameTags(w.Tags, svc.Tags) {
+			x.label("drift=tag-override-switched-on-with-other-tags-for-service-registered-without")
+		}
 		if err := x.driftRegister(&structs.RegisterRequest{Service: svc}); err != nil {
 			x.f.Fatalf("harness: drift d-svc: %v", err)
 		}
 		delete(x.removed, "svc:"+op.ID)
 		x.label("drift=service-added-or-altered")
-	case "d-tags", "d-taddr":
+	case "d-tags", "d-taddr", "d-eto":
 		cur := x.cat.services()[op.ID]
 		if cur == nil {
 			return
 		}
 		var svc structs.NodeService
 		verifC16Copy(cur, &svc)
-		if op.K == "d-tags" {
+		if op.K == "d-eto" {
+			// somebody re-registers the catalog copy with tag override switched ON and other tags
+			svc.EnableTagOverride = true
+			svc.Tags = append([]string(nil), op.Tags...)
+			x.label("drift=tag-override-flag-switched-on")
+			if w := x.wantSvc[op.ID]; w != nil && !w.EnableTagOverride && !verifC16SameTags(w.Tags, svc.Tags) {
+				x.label("drift=tag-override-switched-on-with-other-tags-for-service-registered-without")
+			}
+		} else if op.K == "d-tags" {
 			svc.Tags = append([]string(nil), op.Tags...)
 			if cur.EnableTagOverride {
 				x.label("drift=tags-under-tag-override")
@@ -465,8 +518,14 @@ func (x *verifC16Run) drift(op verifC16Op) {
 			if svc.TaggedAddresses == nil {
 				svc.TaggedAddresses = map[string]structs.ServiceAddress{}
 			}
-			svc.TaggedAddresses["consul-extra"] = structs.ServiceAddress{Address: "240.9.9.9", Port: op.Port}
-			x.label("drift=server-owned-tagged-address")
+			if op.Port == 2 {
+				// an address outside the servers' reserved consul- namespace: not the servers' to own
+				svc.TaggedAddresses["wan"] = structs.ServiceAddress{Address: "198.51.100.9", Port: op.Port}
+				x.label("drift=foreign-tagged-address")
+			} else {
+				svc.TaggedAddresses["consul-extra"] = structs.ServiceAddress{Address: "240.9.9.9", Port: op.Port}
+				x.label("drift=server-owned-tagged-address")
+			}
 		}
 		x.touch("svc:" + op.ID)
 		if err := x.driftRegister(&structs.RegisterRequest{Service: &svc}); err != nil {
@@ -572,6 +631,7 @@ func (x *verifC16Run) step(op verifC16Op) {
 				status = verifC16Status(op.Chk.Status)
 			}
 			x.st.UpdateCheck(cid, status, op.Chk.Output)
+			x.wantUpdate(op.Chk.ID, status, op.Chk.Output)
 			if after := x.st.CheckState(cid); after != nil && after.DeferCheck != nil {
 				x.label("deferred-output")
 			}
@@ -579,9 +639,11 @@ func (x *verifC16Run) step(op verifC16Op) {
 	case op.K == "meta":
 		// agent reload: unloadMetadata + loadMetadata
 		x.st.UnloadMetadata()
+		x.wantMeta = map[string]string{"consul-network-segment": "", "consul-version": "1.22.5", "m": op.Meta}
 		_ = x.st.LoadMetadata(map[string]string{"consul-network-segment": "", "consul-version": "1.22.5", "m": op.Meta})
 	case op.K == "discard":
 		x.st.SetDiscardCheckOutput(op.Discard)
+		x.discard = op.Discard
 	case strings.HasPrefix(op.K, "d-"):
 		x.drift(op)
 		x.invariant("drift")
@@ -976,6 +1038,7 @@ func (x *verifC16Run) exempt(ent string) bool {
 //	     the last diff);
 //	(b2) an entry removed by a local op is gone from the catalog or still tracked as Deleted by the State.
 func (x *verifC16Run) invariant(phase string) {
+	x.localRecord(phase)
 	type finding struct{ key, ent, detail string }
 	var fs []finding
 	svcs, chks := x.cat.services(), x.cat.checks()
@@ -1044,6 +1107,85 @@ func (x *verifC16Run) invariant(phase string) {
 	for _, f := range fs {
 		if x.fail(f.key, "%s\n(last sync calls %s)", f.detail, x.lastCalls()) {
 			x.tolerated[f.ent] = true
+		}
+	}
+}
+
+// localRecord is oracle (g): the agent's own record (State.AllServices / AllChecks / Metadata — what /v1/agent/services
+// shows and what every later sync pushes) equals what the local ops registered, field by field. A sync may change
+// exactly what updateSyncState documents: the Tags of a service whose LOCAL registration has EnableTagOverride, and
+// tagged addresses under the servers' reserved "consul-" prefix ("set by the server ... merged back into the local
+// state"). Nothing else is the servers' to dictate: not the tags of a service registered without tag override (whatever
+// the catalog copy's flag says), no other tagged address, no check field (a deferred output stays local, it is never
+// replaced by the catalog's).
+func (x *verifC16Run) localRecord(phase string) {
+	type finding struct{ what, ent, detail string }
+	var fs []finding
+	got := x.st.AllServices()
+	for id, w := range x.wantSvc {
+		l := got[structs.NewServiceID(id, nil)]
+		if l == nil {
+			fs = append(fs, finding{"service-lost", "svc:" + id, fmt.Sprintf("service %s was registered locally and never removed, the State no longer lists it", id)})
+			continue
+		}
+		cmp := *l
+		if w.EnableTagOverride {
+			cmp.Tags = w.Tags
+		}
+		if d := verifC16DiffService(w, &cmp); d != "" {
+			fs = append(fs, finding{"service." + d, "svc:" + id, fmt.Sprintf("service %s: local record differs from its registration in %s:\n registered %s\n State has  %s", id, d, verifC16JSON(w), verifC16JSON(l))})
+		}
+	}
+	for id := range got {
+		if x.wantSvc[id.ID] == nil {
+			fs = append(fs, finding{"service-appeared", "svc:" + id.ID, fmt.Sprintf("the State lists service %s which no local op registered", id.ID)})
+		}
+	}
+	gotc := x.st.AllChecks()
+	for id, w := range x.wantChk {
+		l := gotc[structs.NewCheckID(types.CheckID(id), nil)]
+		if l == nil {
+			fs = append(fs, finding{"check-lost", "chk:" + id, fmt.Sprintf("check %s was registered locally and never removed, the State no longer lists it", id)})
+			continue
+		}
+		if d := verifC16DiffCheck(w, l, false); d != "" {
+			fs = append(fs, finding{"check." + d, "chk:" + id, fmt.Sprintf("check %s: local record differs from its registration in %s:\n registered %s\n State has  %s", id, d, verifC16JSON(w), verifC16JSON(l))})
+		}
+	}
+	for id := range gotc {
+		if x.wantChk[string(id.ID)] == nil {
+			fs = append(fs, finding{"check-appeared", "chk:" + string(id.ID), fmt.Sprintf("the State lists check %s which no local op registered", id.ID)})
+		}
+	}
+	if m := x.st.Metadata(); verifC16JSON(m) != verifC16JSON(x.wantMeta) {
+		fs = append(fs, finding{"node-meta", "node", fmt.Sprintf("node metadata: loaded %s, State has %s", verifC16JSON(x.wantMeta), verifC16JSON(m))})
+	}
+	sort.Slice(fs, func(i, j int) bool { return fs[i].what+fs[i].ent < fs[j].what+fs[j].ent })
+	for _, f := range fs {
+		key := "C16/local-record-modified-by-sync/" + f.what
+		if phase != "sync" {
+			// after a local or drift op only the harness's own mirror of agent.go could be off
+			key = "C16/local-record-differs-from-registration/after-" + phase + "/" + f.what
+		}
+		if x.fail(key, "%s\n(last sync calls %s)", f.detail, x.lastCalls()) {
+			// tolerated: adopt the real record and go on
+			id := f.ent[4:]
+			switch {
+			case strings.HasPrefix(f.ent, "svc:"):
+				if l := got[structs.NewServiceID(id, nil)]; l != nil {
+					x.wantSvc[id] = l
+				} else {
+					delete(x.wantSvc, id)
+				}
+			case strings.HasPrefix(f.ent, "chk:"):
+				if l := gotc[structs.NewCheckID(types.CheckID(id), nil)]; l != nil {
+					x.wantChk[id] = l
+				} else {
+					delete(x.wantChk, id)
+				}
+			default:
+				x.wantMeta = x.st.Metadata()
+			}
 		}
 	}
 }
